@@ -15,6 +15,14 @@ import (
 
 const maxInsertionSort = 12
 
+// ConcreteDraw is the deterministic draw pattern selected by verifrt.SetDrawMode (same formula as the native side).
+func ConcreteDraw(mode int, seed int64, k int) float64 {
+	if mode == 1 {
+		return float64((seed*7+int64(k)*13)%8) / 8
+	}
+	return float64((seed*3+int64(k)*5+4)%8) / 8
+}
+
 type randStream struct {
 	seed int64
 	k    int
@@ -388,16 +396,37 @@ func (in *Interp) verifrt(name string, args []Value, site ssa.Instruction) (Valu
 	case "SymBool":
 		return c.Var(args[0].(string), smt.SBool), true
 	case "Bool":
+		if f, ok := in.Fixed[args[0].(string)]; ok {
+			p.Choices[args[0].(string)] = f == "true"
+			return f == "true", true
+		}
 		k := p.Choose(2, args[0].(string))
 		p.Choices[args[0].(string)] = k == 1
 		return k == 1, true
 	case "IntRange":
 		lo, hi := args[1].(int64), args[2].(int64)
+		if f, ok := in.Fixed[args[0].(string)]; ok {
+			n, _ := strconv.Atoi(f)
+			if int64(n) < lo || int64(n) > hi {
+				panic(Infeasible{"fixed value outside range"})
+			}
+			p.Choices[args[0].(string)] = int64(n)
+			return int64(n), true
+		}
 		k := p.Choose(int(hi-lo+1), args[0].(string))
 		p.Choices[args[0].(string)] = lo + int64(k)
 		return lo + int64(k), true
 	case "OneOf":
 		ch := in.variadic(args[1])
+		if f, ok := in.Fixed[args[0].(string)]; ok {
+			for _, c := range ch {
+				if c.(string) == f {
+					p.Choices[args[0].(string)] = f
+					return f, true
+				}
+			}
+			panic(Infeasible{"fixed value is not a choice"})
+		}
 		k := p.Choose(len(ch), args[0].(string))
 		p.Choices[args[0].(string)] = ch[k].(string)
 		return ch[k], true
@@ -451,10 +480,20 @@ func (in *Interp) verifrt(name string, args []Value, site ssa.Instruction) (Valu
 		return args[0], true
 	case "Symbolic":
 		return true, true
+	case "SetDrawMode":
+		in.drawMode = int(args[0].(int64))
+		return nil, true
 	case "Generators":
 		seed := args[0].(int64)
 		st := &randStream{seed: seed}
-		return &Native{Name: "generator", Fn: func(in *Interp, _ []Value) Value { return in.draw(seed, st) }}, true
+		return &Native{Name: "generator", Fn: func(in *Interp, _ []Value) Value {
+			if in.drawMode > 0 {
+				k := st.k
+				st.k++
+				return ConcreteDraw(in.drawMode, seed, k)
+			}
+			return in.draw(seed, st)
+		}}, true
 	case "MapOrder":
 		in.mapOrder = int(args[0].(int64))
 		return nil, true
